@@ -7,7 +7,8 @@ GeometryArray.hilbert_distance / GeoSeries.hilbert_distance on ARBITRARY float64
 coordinates, extents that are not powers of two, tiny extents relative to the magnitude, huge
 magnitudes, subnormals, bbox centres on cell edges computed in floating point and their
 neighbouring floats, centres outside total_bounds, NaN / inf, empty and missing elements,
-zero-extent total_bounds also where +1.0 is absorbed, p in 1..31, total_bounds default / list /
+zero-extent total_bounds also where +1.0 is absorbed (a range without extent: cell 0 up to the
+value, last cell beyond it), p in 1..31, total_bounds default / list /
 tuple / ndarray / ints / float32, all subtypes) and compares the distances with the model's, with
 no tolerance: every row of every call.  The model is given the per-element bounds rows and the
 total_bounds the real array reports, as exact hexadecimal float literals.
@@ -254,6 +255,42 @@ def gen_cases(rep, tier):
             # (an edge of the 2^p grid is an edge of every finer grid)
             out.append((kind, 'float64', els, [('edge', tbv, form, p),
                                                ('edge-finer', tbv, form, min(31, p + rng.randint(1, 6)))], 'edge'))
+    # a zero extent where the widening + 1 / + 1.0 is absorbed (|coordinate| >= 2^53): the range has
+    # no extent; data at, below and beyond the single value, in x, y and both; explicit and default
+    # total_bounds; every p in 1..31 on every run
+    pz = 0
+    for kind in G.KINDS:
+        for it in range((5 if tier == 'quick' else 40) * scale):
+            B = rng.choice([2.0 ** 53, -2.0 ** 54, 2.0 ** 60 + 2.0 ** 20, 1e300, -1e18, 2.0 ** 53 + 2, -1.7e308,
+                            2.0 ** 1000])
+            C2 = rng.choice([2.0 ** 53, -2.0 ** 55, 3e200, -4e17, 2.0 ** 62])
+            axis = ['x', 'y', 'both'][it % 3]
+
+            def around(v):
+                return [v, v, ulp_step(v, -1), ulp_step(v, 1), v / 2, v * 2 if abs(v) < 1e307 else v, -v, 0.0,
+                        ulp_step(v, -3), ulp_step(v, 2)]
+            small_ = [rng.randint(-30, 30) * 0.1 for _ in range(10)]
+            xs = around(B) if axis in ('x', 'both') else small_
+            ys = around(C2) if axis in ('y', 'both') else small_
+            rng.shuffle(xs)
+            rng.shuffle(ys)
+            m = rng.choice([3, 5, 8])
+            els = [centred_element(kind, x, y, 0.0, 0.0) for x, y in zip(xs[:m], ys[:m])]
+            if rng.random() < 0.5:
+                els.insert(rng.randint(0, len(els)), None)
+            sx, sy = sorted(small_)[0], sorted(small_)[-1]
+            tbv = [B if axis in ('x', 'both') else sx, C2 if axis in ('y', 'both') else sx,
+                   B if axis in ('x', 'both') else sy + 0.3, C2 if axis in ('y', 'both') else sy + 0.3]
+            variants = []
+            for form in rng.sample(['tuple', 'list', 'ndarray', 'npscalars', 'intlist', 'intarray'], 2):
+                pz += 1
+                variants.append(('absorbed-' + axis, tbv, form, pz % 31 + 1))
+            out.append((kind, 'float64', els, variants, 'absorbed'))
+            # default total_bounds: every element AT the value on the axis (the array's own extent is zero there)
+            els0 = [centred_element(kind, B if axis in ('x', 'both') else x, C2 if axis in ('y', 'both') else y, 0.0, 0.0)
+                    for x, y in zip(small_[:m], small_[3:3 + m])]
+            pz += 1
+            out.append((kind, 'float64', els0, [('absorbed-own-' + axis, None, None, pz % 31 + 1)], 'absorbed'))
     # fixed corpus
     out.append(('point', 'float64', [], None, 'empty'))
     out.append(('polygon', 'float32', [], None, 'empty'))
@@ -383,13 +420,15 @@ def run_float_d2c(rep):
                  + ', '.join(FLAVOURS) + ', integer subtypes, float32 subtypes, bbox centres on and one / two '
                  'floats next to the cell edges of the 2^p grid computed in floating point in five ways, with '
                  'non-dyadic half-widths) x total_bounds default / own / inner / outer / degenerate x, y, xy / '
-                 'reversed / disjoint / one-ulp wide / NaN / inf / overflowing / absorbed (+1.0 lost: '
-                 'ZeroDivisionError) / integers, passed as ' + ', '.join(FORMS) + ' x p in 1..31, through '
+                 'reversed / disjoint / one-ulp wide / NaN / inf / overflowing / integers; zero extent where + 1.0 is '
+                 'absorbed (|coordinate| >= 2^53: range without extent) in x, y, both, with data at / one float '
+                 'below / beyond / far from the value, explicit and default total_bounds, every p in 1..31; passed as ' + ', '.join(FORMS) + ' x p in 1..31, through '
                  'GeometryArray.hilbert_distance and GeoSeries.hilbert_distance: every distance (or the '
                  'exception) equals Model/FloatData2Coord.v evaluated by the Coq kernel on primitive floats, '
                  'no tolerance')
     cases, results, metas = [], [], []
     pcycle = 0
+    absorbed_p = set()
     with warnings.catch_warnings():
         warnings.simplefilter('ignore')
         for kind, st, els, fixed, flavour in gen_cases(rep, tier):
@@ -408,7 +447,7 @@ def run_float_d2c(rep):
             rep.count('float_d2c:subtype=' + st)
             variants = fixed if fixed is not None else \
                 [(lab, vals, form, None) for lab, vals, form in tb_variants(rng, total, flavour)]
-            if fixed is not None:
+            if fixed is not None and fixed[0][1] is not None:
                 variants = variants + [('default', None, None, fixed[0][3])]
             for label, vals, form, p in variants:
                 if p is None:
@@ -424,9 +463,15 @@ def run_float_d2c(rep):
                 rep.count('float_d2c:tb=' + label)
                 rep.count('float_d2c:form=' + str(form))
                 rep.count(f'float_d2c:p={p}')
+                if flavour == 'absorbed' and label.startswith('absorbed'):
+                    absorbed_p.add(p)
+                    rep.count('float_d2c:absorbed_calls')
                 one_call(rep, arr, bounds, total, tbobj, p, via, meta, cases, results, metas)
                 if len(rep.nontrivial_keys) < 10 ** 6 and any(all(math.isfinite(v) for v in r) for r in bounds):
                     rep.nontrivial(('float', kind, st, repr(bounds), label, form, repr(vals), p))
+    rep.extra['float_absorbed_zero_extent_p_values'] = sorted(absorbed_p)
+    if absorbed_p != set(range(1, 32)):
+        raise RuntimeError('the absorbed zero-extent class did not cover p = 1..31: %r' % sorted(absorbed_p))
     bad = C.coq_mismatches(IMPORTS, FN, CASE_TY, RES_TY, cases, results, shard=150)
     rep.count('float_d2c_model_mismatches', len(bad))
     seen = set()
